@@ -9,6 +9,10 @@ mod props;
 mod reads;
 mod seq;
 mod world;
+/// the C API, compiled from the repository's own source into this binary (real extern "C" symbols)
+#[allow(warnings, clippy::all)]
+#[path = "/repo/yffi/src/lib.rs"]
+pub mod yffi;
 
 use engine::*;
 
